@@ -99,6 +99,8 @@ var catalogue = []namedDecl{
 	{pkgSrc, "src", "LocalG", false, false, false, 1, false, true, "type LocalG[X any] struct{ V X }"},
 	{pkgSrc, "src", "LocalAlias", true, false, false, 0, false, true, "type LocalAlias = Local"},
 	{pkgSrc, "src", "localUnexp", false, false, false, 0, false, true, "type localUnexp struct{ y int }"},
+	{pkgSrc, "src", "Ünit", false, false, false, 0, false, true, "type Ünit struct{ U int }"},
+	{pkgAlpha, "alpha", "Élan", false, true, true, 0, false, false, "type Élan []string"},
 }
 
 var basicNames = []string{"int", "string", "bool", "byte", "rune", "float64", "uint8", "uintptr", "complex128", "int64", "uint", "int32", "float32"}
